@@ -3,6 +3,7 @@ package main
 import (
 	"fmt"
 	"os"
+	"sort"
 	"strings"
 
 	"github.com/onflow/cadence/common"
@@ -62,6 +63,49 @@ func probeMain(args []string) {
 			}
 			rep, herr := health.Inspect(w)
 			fmt.Printf("   health: err=%v roots=%v resources=%d slabs=%d\n", herr, rep.Roots, len(rep.Resources), rep.Slabs)
+			if os.Getenv("VERIF_CORRUPT") != "" && i == len(bodies)-1 {
+				corruptionControl(w)
+			}
 		}
 	}
+}
+
+// corruptionControl: negative control of the health monitor. Copies the committed registers and
+// (a) drops one non-root slab register, (b) adds an orphan copy of a slab under a fresh index,
+// (c) truncates one slab register; each must be rejected.
+func corruptionControl(w *host.World) {
+	copyRegs := func() map[string][]byte {
+		m := map[string][]byte{}
+		for k, v := range w.Ledger.StoredValues {
+			m[k] = append([]byte(nil), v...)
+		}
+		return m
+	}
+	var slabKeys []string
+	a2 := host.Addr(2)
+	acct2 := string(a2[:])
+	for k, v := range w.Ledger.StoredValues {
+		if len(v) > 0 && len(k) == 18 && k[9] == '$' && k[:8] == acct2 {
+			slabKeys = append(slabKeys, k)
+		}
+	}
+	sort.Strings(slabKeys)
+	if len(slabKeys) < 2 {
+		fmt.Println("   corruption control: needs at least 2 slabs in account 0x2")
+		return
+	}
+	last := slabKeys[len(slabKeys)-1]
+	m := copyRegs()
+	delete(m, last)
+	_, err := health.InspectRegisters(m)
+	fmt.Printf("   corruption control (drop slab %x): rejected=%v (%v)\n", last[9:], err != nil, err)
+	m = copyRegs()
+	orphan := last[:10] + "\x00\x00\x00\x00\x00\x00\x03\xe7"
+	m[orphan] = append([]byte(nil), m[last]...)
+	_, err = health.InspectRegisters(m)
+	fmt.Printf("   corruption control (orphan copy of slab): rejected=%v (%v)\n", err != nil, err)
+	m = copyRegs()
+	m[last] = m[last][:len(m[last])/2]
+	_, err = health.InspectRegisters(m)
+	fmt.Printf("   corruption control (truncated slab): rejected=%v (%v)\n", err != nil, err)
 }
